@@ -263,7 +263,7 @@ func (g *GoGen) str() string {
 }
 
 var rawValues = []string{"null", "0", "\"\"", "{}", "[]", "\"\\\"\"", "true", " [1, 2] ", "{\"a\":{\"b\":[]}}", "-1.5e3", "\"\\u00e9\""}
-var badRawValues = []string{`{"a\"b":1,"a\u0022b":2}`, `{"x\ny":1,"x\u000ay":2}`, `{"k":1,"\u006b":2}`, "", " ", "nul", "{", "[1,]", "1 2", "{\"a\":1,\"a\":2}", "\"\xff\"", "\"\\ud800\"", "01", "{\"a\"}", "[}", "tru", "\"unterminated"}
+var badRawValues = []string{"{\"k\xff\":1,\"k\xfe\":2}", "{\"\xff\":1,\"\\ufffd\":2}", `{"a\"b":1,"a\u0022b":2}`, `{"x\ny":1,"x\u000ay":2}`, `{"k":1,"\u006b":2}`, "", " ", "nul", "{", "[1,]", "1 2", "{\"a\":1,\"a\":2}", "\"\xff\"", "\"\\ud800\"", "01", "{\"a\"}", "[}", "tru", "\"unterminated"}
 
 // WideObject builds {"m0":0,...} with n members; if dup>=0 member number n-1
 // repeats the name of member dup (a late duplicate); long>0 pads names.
